@@ -471,7 +471,7 @@ impl Run {
                 .and_then(|s| s.parse().ok())
                 .unwrap_or(16),
             guard: false,
-            deadline_ms: DEFAULT_DEADLINE_MS,
+            deadline_ms: std::env::var("HV_DEADLINE_MS").ok().and_then(|s| s.parse().ok()).unwrap_or(DEFAULT_DEADLINE_MS),
             stack: 8 << 20,
             max_shrink_iters: 1500,
         }
